@@ -564,7 +564,11 @@ def get_sort(node):
         return __get_sort_cache[node.id]
     if node in __get_sort_cache:
         return __get_sort_cache[node]
-    sort = _get_sort_aux(node)
+    try:
+        sort = _get_sort_aux(node)
+    except (IndexError, ValueError, AttributeError, AssertionError):
+        # malformed term (e.g., an operator without operands): unknown sort
+        sort = None
     __get_sort_cache[node.id] = sort
     __get_sort_cache[node] = sort
     return sort
